@@ -5,6 +5,9 @@ package ice
 // C14 — ICE-TCP framing preserves packet boundaries.
 
 import (
+	"strings"
+	"runtime"
+	"os"
 	"bytes"
 	"context"
 	"encoding/binary"
@@ -42,6 +45,10 @@ type c14Conn struct {
 	remote    net.Addr
 	// afterWrite (if set) runs after every Write call, outside the lock: another writer gets its turn there
 	afterWrite func(nthWrite int)
+	// partialAt > 0: the partialAt-th Write call takes only partialKeep bytes and fails (a write deadline that
+	// expires in the middle of a frame)
+	partialAt, partialKeep int
+	writeCalls             int
 }
 
 func newC14Conn(stream []byte, chunks []int, eofAtEnd bool) *c14Conn {
@@ -110,6 +117,17 @@ func (c *c14Conn) Write(b []byte) (int, error) {
 	}
 	if c.closed {
 		return 0, net.ErrClosed
+	}
+	c.writeCalls++
+	if c.partialAt > 0 && c.writeCalls == c.partialAt {
+		k := c.partialKeep
+		if k > len(b) {
+			k = len(b)
+		}
+		c.written = append(c.written, append([]byte{}, b[:k]...))
+		c.cond.Broadcast()
+
+		return k, os.ErrDeadlineExceeded
 	}
 	c.written = append(c.written, append([]byte{}, b...))
 	c.cond.Broadcast()
@@ -787,6 +805,11 @@ func TestVerif_C14_StalledWriteBuffer(t *testing.T) {
 
 				break
 			}
+			// "returns only when all goroutines have ended": the writer goroutine of the buffered connection too
+			buf := make([]byte, 1<<20)
+			if stack := string(buf[:runtime.Stack(buf, true)]); strings.Contains(stack, "bufferedConn).writeProcess") {
+				st.Fail(rt, "C15/close/writer-goroutine-outlives-close", "Close of the TCP packet connection has returned while the writer goroutine of a buffered connection is still running (write buffer %d, %d packets accepted)", bufSize, len(accepted))
+			}
 			st.Record(vfHash("close-stalled", bufSize, len(accepted), refused), len(accepted) > 0, "close-while-stalled")
 
 			return
@@ -1191,6 +1214,64 @@ func TestVerif_C14_ConcurrentWriters(t *testing.T) {
 			}
 			st.Fail(rt, "C14/concurrent-writers/stream-not-whole-frames", "the wire is not one whole frame per packet: parsed frame lengths %v, %d stray bytes; %d packets accepted, intruded=%v (after Write call %d), writeBuffer=%d",
 				lens, len(rest), len(sent), intruded, intrudeAt, writeBuf)
+		}
+	})
+}
+
+
+// TestVerif_C14_PartialWrite: a write that fails after part of a frame is on the wire (a write deadline expiring
+// mid-frame, an abort by a sibling user) leaves a truncated frame in the stream. Whatever is written next would
+// be read by the peer as the rest of that frame: "never a merged, split or fabricated packet" — the stream has to
+// end there (closure of that connection), further packets must not follow.
+func TestVerif_C14_PartialWrite(t *testing.T) {
+	st := vfNewStats(t)
+	logger := logging.NewDefaultLoggerFactory().NewLogger("verif")
+	logger.(*logging.DefaultLeveledLogger).SetLevel(logging.LogLevelDisabled) //nolint:forcetypeassert
+	rapid.Check(t, func(rt *rapid.T) {
+		writeBuf := rapid.SampledFrom([]int{0, 0, 4000, 100000}).Draw(rt, "writeBuffer")
+		pkts := rapid.SliceOfN(c14PacketGen(600), 2, 8).Draw(rt, "packets")
+		at := rapid.IntRange(1, len(pkts)).Draw(rt, "failingWrite")
+		keep := rapid.IntRange(0, 2+len(pkts[at-1])-1).Draw(rt, "bytesTakenBeforeTheFailure")
+		conn := newC14Conn(nil, nil, false)
+		conn.partialAt, conn.partialKeep = at, keep
+		pc := newTCPPacketConn(tcpPacketParams{ReadBuffer: 8, LocalAddr: conn.local, Logger: logger, WriteBuffer: writeBuf})
+		defer pc.Close() //nolint:errcheck
+		if err := pc.AddConn(conn, nil); err != nil {
+			rt.Fatalf("harness: %v", err)
+		}
+		for _, p := range pkts {
+			_, _ = pc.WriteTo(p, conn.remote)
+			if writeBuf > 0 {
+				// one frame per Write call of the writer goroutine: wait until it has been handed over
+				for d := time.Now().Add(5 * time.Second); time.Now().Before(d); {
+					conn.mu.Lock()
+					done := conn.closed || conn.writeCalls >= len(conn.written) && len(conn.written) > 0
+					conn.mu.Unlock()
+					if done {
+						break
+					}
+					time.Sleep(50 * time.Microsecond)
+				}
+				time.Sleep(200 * time.Microsecond)
+			}
+		}
+		time.Sleep(time.Millisecond)
+		wire := conn.writtenBytes()
+		got, rest := c14ParseFrames(wire)
+		// reference: the frames before the failing write, then the kept prefix of the failing frame, then nothing
+		want := c14Frame(pkts[:at-1])
+		failing := c14Frame(pkts[at-1 : at])
+		want = append(want, failing[:keep]...)
+		desc := fmt.Sprintf("writeBuffer=%d packets=%d failingWrite=%d kept=%d of %d", writeBuf, len(pkts), at, keep, len(failing))
+		st.Record(vfHashStr(desc), keep > 0 && at < len(pkts), fmt.Sprintf("buffered:%v", writeBuf > 0), fmt.Sprintf("partial:%v", keep > 0))
+		if keep > 0 && st.WantSample() {
+			st.Sample(func() string { return desc })
+		}
+		if keep == 0 {
+			return // nothing of the frame went out: the stream is intact, later packets may follow
+		}
+		if !bytes.Equal(wire, want) {
+			st.Fail(rt, "C14/write/stream-continues-after-partial-frame", "%s: %d bytes on the wire, the stream should end after the truncated frame at %d bytes; the peer parses %d frames + %d stray bytes", desc, len(wire), len(want), len(got), len(rest))
 		}
 	})
 }
